@@ -266,7 +266,17 @@ namespace
   };
   // W1: both slabs use the mass conserving model with splines of different sizes (a model that keeps a workspace between calls must not let one slab's samples leak into the other's)
   std::string text_w1() { worlds::Opt o = opt_for(0); o.slab_model = 2; o.second_slab = true; o.water = true; return worlds::rich(o); }
-  std::string text_w2() { worlds::Opt o; o.spherical = true; o.variant = 1; o.shift = 178; o.depth_points = true; return worlds::rich(o); }
+  // W2 has its own thermal diffusivity (W1, W3 and W4 use the default): both W1 (operations 15 / 16) and W2 (operation 11) evaluate the oceanic half space model,
+  // so a per-process copy of a top-level constant is filled by one world and read by the other
+  std::string text_w2()
+  {
+    worlds::Opt o; o.spherical = true; o.variant = 1; o.shift = 178; o.depth_points = true;
+    std::string t = worlds::rich(o);
+    const size_t brace = t.find('{');
+    if (brace == std::string::npos || t.find("thermal diffusivity") != std::string::npos) { fprintf(stderr, "C01: cannot give W2 its own thermal diffusivity\n"); _exit(3); }
+    t.insert(brace + 1, "\"thermal diffusivity\":1.4e-6,");
+    return t;
+  }
   P3 point_w2() { return query_point(true, 181.5, 0.5, 8e4); }
   std::string text_w3() { worlds::Opt o; o.spherical = true; o.many_depth_points = true; o.area_only = true; return worlds::rich(o); }
   std::string text_w4() { worlds::Opt o; o.spherical = true; o.many_depth_points = true; o.area_only = true; o.depth_seed = 100; return worlds::rich(o); }
